@@ -45,13 +45,18 @@ theorem vocab_codes :
 
 /-! ### bodylimit -/
 
-/-- `bodylimit.New`'s handler, on every path: skip-path test first (`Body.serve`: `r.skip`), then the Content-Length
-    pre-check; the rejection is `errorHandler; Abort; return` without `c.Next()`; every other path installs the limited
-    reader (when there is a body) BEFORE the single `c.Next()` -/
+def bodyOK (t : List Nat) : Bool :=
+  t.head? == some 4 && dominates 5 6 t && dominates 5 3 t &&
+  (if t.contains 3 then endsWith [3, 2] t && !t.contains 1 && !t.contains 7
+   else endsWith [1] t && t.count 1 == 1 && !t.contains 2 && before 7 1 t)
+
+/-- `bodylimit.New`'s handler, on every path: the skip-path test comes first (`Body.serve`: `r.skip`); the Content-Length
+    header is read before it is parsed and before anything is rejected; the rejection is `errorHandler; Abort; return`
+    without `c.Next()` and without touching the body; every other path calls `c.Next()` exactly once, last, and a limited
+    reader — when one is installed — is installed before it -/
 theorem bodylimit_check_dominates_next (ρ : Atom → Bool) :
-    [[4, 1], [4, 5, 6, 3, 2], [4, 5, 6, 7, 1], [4, 5, 6, 1], [4, 5, 7, 1], [4, 5, 1]].contains
-      (codesOf ((exec ρ bodylimit_handler).trace.filter (keepCodes [1, 2, 3, 4, 5, 6, 7]))) = true :=
-  every_exec bodylimit_handler [1, 2, 3, 4, 5, 6, 7] _ (by decide) ρ
+    bodyOK (codesOf ((exec ρ bodylimit_handler).trace.filter (keepCodes [1, 2, 3, 4, 5, 6, 7]))) = true :=
+  every_exec bodylimit_handler [1, 2, 3, 4, 5, 6, 7] bodyOK (by decide) ρ
 
 /-- `limitedReader.Read`: the counter is updated after the (clipped) read; the limit error is produced only after that
     and after the look-ahead; at most one representative look-ahead read per call (`LR.read1`) -/
